@@ -90,6 +90,16 @@ CLAIMS["C13"] = (
     "at n for all 1-2 step relative paths over 12 axes (with predicates); wrappers P[true()], (P), P|P, not(not(P)).",
     CLAIMS["C01"][2], "DESIGN.md 4/C13")
 
+CLAIMS["C05"] = (
+    "TLA+ ownership/sharing model (XShare.tla) checked by TLC for all interleavings of 3 goroutines at memory-access "
+    "granularity; TLC-enumerated API-level interleavings of up to 3 clients replayed on ONE shared Expr and validated by "
+    "TLC (XApi.tla); real goroutines under Go's race detector with results compared to sequential runs",
+    "Model checking of the sharing discipline (NoConflict, lock discipline) plus conformance: cooperative replay of every "
+    "interleaving of calls exposes logical sharing between clones deterministically; the happens-before race detector "
+    "decides memory-level races during concurrent Select/Evaluate/Compile/regex runs.",
+    CLAIMS["C01"][2] + " Memory-level races are decided by Go's race detector (trusted); sub-call interleavings are whatever "
+    "the scheduler produces (DESIGN.md 8).", "DESIGN.md 4/C05")
+
 NOT_YET = "check not built yet in this round (see DESIGN.md section 9 for the construction order)"
 
 
